@@ -3,6 +3,8 @@ package main
 import (
 	"fmt"
 	"strings"
+	"sync"
+	"sync/atomic"
 
 	"verif/vlib"
 )
@@ -105,7 +107,87 @@ func pickW(r *vlib.Rand, w []int) int {
 	return len(w) - 1
 }
 
+// seqRun is what the main goroutine may look at when a sequential case does not come back:
+// the executed operations and the library call that is pending.
+type seqRun struct {
+	mu        sync.Mutex
+	log       []string
+	pending   string
+	abandoned bool
+}
+
+type seqAbandoned struct{}
+
+func (s *seqRun) begin(name string) {
+	s.mu.Lock()
+	s.pending = name
+	s.mu.Unlock()
+}
+
+// add appends a finished operation; a case that was given up by the main goroutine ends here.
+func (s *seqRun) add(entry string) {
+	s.mu.Lock()
+	s.pending = ""
+	s.log = append(s.log, entry)
+	ab := s.abandoned
+	s.mu.Unlock()
+	if ab {
+		panic(seqAbandoned{})
+	}
+}
+
+// seqCase runs one sequential model-check case on its own goroutine and waits for it with the
+// watchdog: a library call that never returns (a Get that parks although elements are queued,
+// an eviction loop that does not end) must cost one case, not the child.
 func seqCase(c *vlib.Ctx, kind int, i int, r *vlib.Rand) {
+	section := "seq-" + []string{"rq", "dq"}[kind]
+	if skipAbandoned(c, section, i) {
+		return
+	}
+	st := &seqRun{}
+	var qShared qapi // written once by the case's goroutine under st.mu
+	// the sequential sections run before anything that can leave goroutines parked in Get
+	base := 0
+	o := guardCall(curWatchdog(), func() { seqBody(c, kind, i, r, st, &qShared) })
+	o.rethrow()
+	if o.Returned {
+		return
+	}
+	// the case is stuck inside a library call
+	st.mu.Lock()
+	st.abandoned = true
+	pending := st.pending
+	ops := append([]string(nil), st.log...)
+	q := qShared
+	st.mu.Unlock()
+	detail := map[string]interface{}{"pending_call": pending, "ops": ops}
+	caseID := fmt.Sprintf("%s#%d", section, i)
+	conclusive := false
+	if q != nil {
+		detail["type"] = q.name()
+		if pending == "Get()" {
+			// Get is only called when the model holds an element and Size() agreed with the model
+			// just before; nobody else uses this queue. Parked in Cond.Wait with Size()>0, seen
+			// twice: the blocking get does not return although an element is available.
+			s := diagnoseStall(q, base, func() int64 { return 0 })
+			detail["observation"] = s.Detail
+			if s.Conclusive {
+				conclusive = true
+				c.Fail(q.name()+".Get:lost-wakeup", "sequential: Get() stays parked in Cond.Wait although Size()>0 and no other goroutine uses the queue", detail)
+			}
+		} else {
+			atomic.AddInt32(&stallsSeen, 1)
+		}
+	} else {
+		atomic.AddInt32(&stallsSeen, 1)
+	}
+	if !conclusive {
+		c.Inconclusive(caseID, fmt.Sprintf("sequential call %q did not return within the watchdog %v after %d operations; goroutine abandoned", pending, watchdog, len(ops)))
+	}
+	abandonSection(c, section, fmt.Sprintf("%s: library call %q did not return", caseID, pending))
+}
+
+func seqBody(c *vlib.Ctx, kind int, i int, r *vlib.Rand, st *seqRun, qOut *qapi) {
 	var caps [2]int
 	caps[0] = seqCaps[r.Intn(len(seqCaps))]
 	caps[1] = seqCaps[r.Intn(len(seqCaps))]
@@ -113,6 +195,9 @@ func seqCase(c *vlib.Ctx, kind int, i int, r *vlib.Rand) {
 		caps[r.Intn(2)] = -1 - r.Intn(3) // negative = unbounded as well
 	}
 	q := newQ(kind, caps)
+	st.mu.Lock()
+	*qOut = q
+	st.mu.Unlock()
 	T := q.name()
 	m := &model2{n: q.lanes()}
 	m.lane[0].cap, m.lane[1].cap = caps[0], caps[1]
@@ -122,6 +207,10 @@ func seqCase(c *vlib.Ctx, kind int, i int, r *vlib.Rand) {
 		return func(v interface{}) {
 			id, _ := v.(uint64)
 			rec = append(rec, cbEv{k, l, id, fmt.Sprint(v)})
+			// one call can hand over at most what the queue holds (+ the refused element)
+			if len(rec) > m.size()+4 {
+				panic(runawayPanic{len(rec)})
+			}
 		}
 	}
 	q.setCallbacks([2]func(interface{}){mk('F', 0), mk('F', 1)}, [2]func(interface{}){mk('O', 0), mk('O', 1)})
@@ -136,15 +225,62 @@ func seqCase(c *vlib.Ctx, kind int, i int, r *vlib.Rand) {
 		prof = seqProfiles[0]
 	}
 	phaseLen := r.Range(20, 400)
-	var log []string
+
+	// A third of the cases start with a scripted prologue: fill (1..4 puts, any lane), Clear()
+	// on the NON-empty queue, put again, fetch with each kind of get; sometimes twice. What is
+	// accepted after a Clear must come out again, in order, on both lanes of both queue types.
+	var script [][2]int
+	if r.Intn(3) == 0 {
+		putOp := func(forcePct int) [2]int {
+			op := 0
+			if r.Intn(100) < forcePct {
+				op = 1
+			}
+			return [2]int{op, r.Intn(q.lanes())}
+		}
+		for rounds := r.Range(1, 2); rounds > 0; rounds-- {
+			for k := r.Range(1, 4); k > 0; k-- {
+				script = append(script, putOp(25))
+			}
+			script = append(script, [2]int{5, 0})
+			n2 := r.Range(1, 3)
+			for k := 0; k < n2; k++ {
+				script = append(script, putOp(40))
+			}
+			for k := r.Range(1, n2+1); k > 0; k-- {
+				script = append(script, [2]int{[]int{2, 2, 3, 4, 4}[r.Intn(5)], 0})
+			}
+		}
+		c.Count("seq_cases_with_clear_prologue", 1)
+	}
+	if nops < len(script) {
+		nops = len(script)
+	}
+
 	next := uint64(0)
 	failed := false
+	sinceClear := false // a Clear() of a non-empty queue happened earlier in this case
 	fail := func(key, what string) {
 		failed = true
-		tail := log
-		c.Fail(key, what, map[string]interface{}{"type": T, "initial_capacity": caps[:q.lanes()], "ops": tail, "failing_step": len(log) - 1})
+		atomic.StoreInt32(&seqFailed, 1)
+		c.Fail(key, what, map[string]interface{}{"type": T, "initial_capacity": caps[:q.lanes()], "ops": st.log, "failing_step": len(st.log) - 1})
+	}
+	// call executes one library call; true = it was aborted by the callbacks' runaway guard
+	call := func(name string, fn func()) (runaway bool) {
+		st.begin(name)
+		defer func() {
+			if e := recover(); e != nil {
+				if !isRunaway(e) {
+					panic(e)
+				}
+				runaway = true
+			}
+		}()
+		fn()
+		return false
 	}
 	checkSizes := func(op string) {
+		st.begin("Size()/GetCapacity() after " + op)
 		for l := 0; l < q.lanes(); l++ {
 			if g, w := q.sizeLane(l), len(m.lane[l].q); g != w {
 				fail(T+".Size:wrong-value", fmt.Sprintf("after %s lane %d Size()=%d, model holds %d", op, l+1, g, w))
@@ -202,13 +338,23 @@ func seqCase(c *vlib.Ctx, kind int, i int, r *vlib.Rand) {
 			if wl == 1 {
 				c.Count("seq_lane2_served_when_lane1_empty", 1)
 			}
+			if gid != 0 && sinceClear {
+				c.Count("seq_deliveries_after_nonempty_clear", 1)
+			}
 			return
 		}
 		key := T + "." + op + ":wrong-element"
 		if m.n == 2 && wl == 0 && len(m.lane[1].q) > 0 && gid == m.lane[1].q[0] {
 			key = "RequestDoubleQueue:priority"
 		}
+		if op == "Get" && got == nil {
+			key = T + ".Get:empty-return" // a blocking get never comes back empty-handed
+		}
 		fail(key, fmt.Sprintf("%s returned %d, the model's next element is %d", op, gid, want))
+	}
+	runawayFail := func(name string) {
+		fail(T+".PutForce:eviction-runaway", fmt.Sprintf("%s: the callbacks were invoked %d times although the queue held %d elements: the eviction loop does not terminate (aborted by the monitor); last callbacks %v",
+			name, len(rec), m.size(), rec[len(rec)-3:]))
 	}
 
 	for step := 0; step < nops && !failed; step++ {
@@ -216,15 +362,31 @@ func seqCase(c *vlib.Ctx, kind int, i int, r *vlib.Rand) {
 			prof = seqProfiles[r.Intn(len(seqProfiles))]
 		}
 		rec = rec[:0]
-		op := pickW(r, prof[:])
-		lane := r.Intn(q.lanes())
+		var op, lane int
+		if len(script) > 0 {
+			op, lane = script[0][0], script[0][1]
+			script = script[1:]
+			if op == 4 && m.size() == 0 {
+				op = 2
+			}
+		} else {
+			op = pickW(r, prof[:])
+			lane = r.Intn(q.lanes())
+		}
+		last := ""
 		switch op {
 		case 0: // Put
 			next++
-			got := q.put(lane, next)
-			wantOK, wf := m.lane[lane].put(next)
 			name := fmt.Sprintf("Put%d(%d)", lane+1, next)
-			log = append(log, fmt.Sprintf("%s=%v", name, got))
+			var got bool
+			if call(name, func() { got = q.put(lane, next) }) {
+				st.add(name + "=<aborted>")
+				runawayFail(name)
+				break
+			}
+			wantOK, wf := m.lane[lane].put(next)
+			last = fmt.Sprintf("%s=%v", name, got)
+			st.add(last)
 			if got != wantOK {
 				fail(T+".Put:wrong-return", fmt.Sprintf("%s returned %v with %d/%d held, expected %v", name, got, len(m.lane[lane].q), m.lane[lane].cap, wantOK))
 			}
@@ -237,10 +399,16 @@ func seqCase(c *vlib.Ctx, kind int, i int, r *vlib.Rand) {
 			c.Count("seq_put", 1)
 		case 1: // PutForce
 			next++
-			got := q.putForce(lane, next)
-			wantOK, ev := m.lane[lane].putForce(next)
 			name := fmt.Sprintf("PutForce%d(%d)", lane+1, next)
-			log = append(log, fmt.Sprintf("%s=%v", name, got))
+			var got bool
+			if call(name, func() { got = q.putForce(lane, next) }) {
+				st.add(name + "=<aborted>")
+				runawayFail(name)
+				break
+			}
+			wantOK, ev := m.lane[lane].putForce(next)
+			last = fmt.Sprintf("%s=%v", name, got)
+			st.add(last)
 			if got != wantOK {
 				fail(T+".PutForce:wrong-return", fmt.Sprintf("%s returned %v, expected %v (evictions expected: %d)", name, got, wantOK, len(ev)))
 			}
@@ -255,8 +423,10 @@ func seqCase(c *vlib.Ctx, kind int, i int, r *vlib.Rand) {
 				c.Count("seq_multi_evictions", 1)
 			}
 		case 2: // GetNoWait
-			got := q.getNoWait()
-			log = append(log, fmt.Sprintf("GetNoWait()=%v", got))
+			var got interface{}
+			call("GetNoWait()", func() { got = q.getNoWait() })
+			last = fmt.Sprintf("GetNoWait()=%v", got)
+			st.add(last)
 			getCheck("GetNoWait", got)
 			cmpCB("GetNoWait", false, nil)
 			c.Count("seq_getnowait", 1)
@@ -270,8 +440,10 @@ func seqCase(c *vlib.Ctx, kind int, i int, r *vlib.Rand) {
 			case 2, 3, 4, 5, 6, 7, 8, 9:
 				t = -1
 			}
-			got := q.getTimeout(t)
-			log = append(log, fmt.Sprintf("GetTimeout(%d)=%v", t, got))
+			var got interface{}
+			call(fmt.Sprintf("GetTimeout(%d)", t), func() { got = q.getTimeout(t) })
+			last = fmt.Sprintf("GetTimeout(%d)=%v", t, got)
+			st.add(last)
 			getCheck("GetTimeout", got)
 			cmpCB("GetTimeout", false, nil)
 			c.Count("seq_gettimeout", 1)
@@ -284,15 +456,22 @@ func seqCase(c *vlib.Ctx, kind int, i int, r *vlib.Rand) {
 				}
 				continue
 			}
-			got := q.get()
-			log = append(log, fmt.Sprintf("Get()=%v", got))
+			var got interface{}
+			call("Get()", func() { got = q.get() })
+			last = fmt.Sprintf("Get()=%v", got)
+			st.add(last)
 			getCheck("Get", got)
 			cmpCB("Get", false, nil)
 			c.Count("seq_get", 1)
 		case 5:
-			q.clear()
+			if m.size() > 0 {
+				sinceClear = true
+				c.Count("seq_clear_nonempty", 1)
+			}
+			call("Clear()", func() { q.clear() })
 			m.lane[0].q, m.lane[1].q = nil, nil
-			log = append(log, "Clear()")
+			last = "Clear()"
+			st.add(last)
 			cmpCB("Clear", false, nil)
 			c.Count("seq_clear", 1)
 		case 6:
@@ -309,26 +488,29 @@ func seqCase(c *vlib.Ctx, kind int, i int, r *vlib.Rand) {
 					}
 				}
 			}
-			q.setCap(nc)
+			last = fmt.Sprintf("SetCapacity(%v)", nc[:q.lanes()])
+			call(last, func() { q.setCap(nc) })
 			m.lane[0].cap, m.lane[1].cap = nc[0], nc[1]
-			log = append(log, fmt.Sprintf("SetCapacity(%v)", nc[:q.lanes()]))
+			st.add(last)
 			cmpCB("SetCapacity", false, nil)
 			c.Count("seq_setcapacity", 1)
 		case 7:
-			log = append(log, "Size()")
+			last = "Size()"
+			st.add(last)
 		}
 		if !failed {
-			checkSizes(log[len(log)-1])
+			checkSizes(last)
 		}
 		if len(m.lane[0].q) >= 1000 || len(m.lane[1].q) >= 1000 {
 			c.Count("seq_steps_with_lane_at_1000", 1)
 		}
 	}
-	// drain: what is left must come out in model order
-	for !failed && (m.size() > 0 || q.size() > 0) {
+	// drain: what is left must come out in model order (bounded by what the model holds)
+	for budget := m.size() + 8; !failed && budget > 0 && (m.size() > 0 || q.size() > 0); budget-- {
 		rec = rec[:0]
-		got := q.getNoWait()
-		log = append(log, fmt.Sprintf("GetNoWait()=%v", got))
+		var got interface{}
+		call("GetNoWait()", func() { got = q.getNoWait() })
+		st.add(fmt.Sprintf("GetNoWait()=%v", got))
 		getCheck("GetNoWait", got)
 		if got == nil && m.size() == 0 {
 			break
@@ -336,11 +518,13 @@ func seqCase(c *vlib.Ctx, kind int, i int, r *vlib.Rand) {
 		c.Count("seq_drained", 1)
 	}
 	if !failed {
+		st.begin("GetNoWait()")
 		if got := q.getNoWait(); got != nil {
-			log = append(log, fmt.Sprintf("GetNoWait()=%v", got))
+			st.add(fmt.Sprintf("GetNoWait()=%v", got))
 			fail(T+".GetNoWait:wrong-element", fmt.Sprintf("empty queue returned %v", got))
 		}
 	}
+	log := st.log
 	c.Count("seq_ops", int64(len(log)))
 	c.Count("seq_cases", 1)
 	for l := 0; l < q.lanes(); l++ {
